@@ -47,6 +47,13 @@ pub struct Trace {
     /// this many distinct values are appended before the history proper (long-lived storage)
     #[serde(default)]
     pub prefill: u32,
+    /// how the storage is constructed: 0 `Storage::new()`, 1 `Storage::default()`, 2 the default value left behind by
+    /// `std::mem::take` on a used storage
+    #[serde(default)]
+    pub ctor: u8,
+    /// the prefill goes through fetch_or_append (classes two apart, so nothing matches) instead of append
+    #[serde(default)]
+    pub prefill_by_fetch: bool,
     /// element type is zero-sized (all values carry no data; equality still follows the relation on a
     /// thread-local "current class" so NaN-like / always-equal behaviours are possible)
     #[serde(default)]
@@ -57,12 +64,12 @@ pub struct Trace {
     pub ops: Vec<Op>,
 }
 
-trait Elem: PartialEq {
+trait Elem: PartialEq + Default {
     fn make(class: u32, uid: u32) -> Self;
     fn uid(&self) -> u32;
 }
 
-#[derive(Debug)]
+#[derive(Debug, Default)]
 struct V {
     class: u32,
     uid: u32,
@@ -99,7 +106,7 @@ fn rel_eq(a: u32, au: u32, b: u32, bu: u32) -> bool {
 
 fn counted_eq(a: u32, au: u32, b: u32, bu: u32) -> bool {
     let n = EQ_CALLS.with(|c| {
-        c.set(c.get() + 1);
+        c.set(c.get().wrapping_add(1));
         c.get()
     });
     if UNWIND_AT.with(|u| u.get()) == n {
@@ -128,7 +135,7 @@ impl Elem for V {
 }
 
 /// larger than a cache line
-#[derive(Debug)]
+#[derive(Debug, Default)]
 struct Big {
     class: u32,
     uid: u32,
@@ -162,6 +169,12 @@ struct Huge<const N: usize> {
     _pad: [u8; N],
 }
 
+impl<const N: usize> Default for Huge<N> {
+    fn default() -> Self {
+        Huge { class: 0, uid: 0, _pad: [0; N] }
+    }
+}
+
 impl<const N: usize> PartialEq for Huge<N> {
     fn eq(&self, other: &Huge<N>) -> bool {
         counted_eq(self.class, self.uid, other.class, other.uid)
@@ -187,6 +200,12 @@ fn odd_ne(a: u32, au: u32, b: u32, bu: u32) -> bool {
         1 => false,
         2 => true,
         _ => !rel_eq(a, au, b, bu),
+    }
+}
+
+impl Default for E {
+    fn default() -> E {
+        E::B(0, 0)
     }
 }
 
@@ -220,11 +239,29 @@ impl Elem for E {
     }
 }
 
+/// the storage under test, constructed the way the trace says
+fn construct<T: Default>(ctor: u8, cov: &mut Cov) -> Storage<T> {
+    match ctor {
+        1 => {
+            cov.hit("reached.storage_from_default");
+            Storage::default()
+        }
+        2 => {
+            cov.hit("reached.storage_left_by_mem_take");
+            let mut tmp: Storage<T> = Storage::new();
+            tmp.append(T::default());
+            let _old = std::mem::take(&mut tmp);
+            tmp
+        }
+        _ => Storage::new(),
+    }
+}
+
 const SENTINEL_CLASS: u32 = 1_000_000;
 const PREFILL_CLASS: u32 = 2_000_000;
 
 /// zero-sized element: every value is indistinguishable; `==` is decided per run (always / never equal)
-#[derive(Debug)]
+#[derive(Debug, Default)]
 struct Z;
 
 thread_local! {
@@ -241,7 +278,7 @@ fn execute_zst(t: &Trace, cov: &mut Cov) -> RunOut {
     // NaN-like relation => never equal; anything else => always equal
     let never = matches!(t.relation, Relation::NanLike(_));
     Z_EQUAL.with(|z| z.set(!never));
-    let mut st: Storage<Z> = Storage::new();
+    let mut st: Storage<Z> = construct(t.ctor, cov);
     let mut count: u32 = 0;
     let mut h = AbsHash::new();
     let mut viol = None;
@@ -320,7 +357,7 @@ fn run_history<T: Elem>(t: &Trace, cov: &mut Cov) -> RunOut {
     EQ_CALLS.with(|c| c.set(0));
     UNWIND_AT.with(|u| u.set(t.unwind_at.unwrap_or(0)));
 
-    let mut st: Storage<T> = Storage::new();
+    let mut st: Storage<T> = construct(t.ctor, cov);
     let mut model: Vec<(u32, u32)> = vec![]; // (class, uid)
     let mut tokens: Vec<(Token<T>, u32)> = vec![]; // every token ever returned with the uid it must resolve to
     let mut append_tokens: Vec<u32> = vec![];
@@ -335,8 +372,9 @@ fn run_history<T: Elem>(t: &Trace, cov: &mut Cov) -> RunOut {
     for k in 0..t.prefill {
         let uid = next_uid;
         next_uid += 1;
-        let class = PREFILL_CLASS + k;
-        match guarded(|| st.append(T::make(class, uid))) {
+        let class = if t.prefill_by_fetch { PREFILL_CLASS + 2 * k } else { PREFILL_CLASS + k };
+        let by_fetch = t.prefill_by_fetch;
+        match guarded(|| if by_fetch { st.fetch_or_append(T::make(class, uid)) } else { st.append(T::make(class, uid)) }) {
             Ok(tok) => {
                 if tok.index() as usize != model.len() {
                     viol = fail("C19.append.dense-index", "op=append", 0, format!("append #{} returned index {}", model.len() + 1, tok.index()));
@@ -585,7 +623,11 @@ impl Property for C19 {
         };
         let zst = rng.chance(1, 16);
         // long-lived storage: thousands of distinct values first, then the history refers to early ones
-        let prefill = if !zst && rng.chance(1, 400) {
+        let prefill_by_fetch = rng.chance(1, 3);
+        let prefill = if !zst && rng.chance(1, 60) {
+            // a storage that already holds dozens to hundreds of values (thresholds of small-size fast paths)
+            rng.range(60, 300) as u32
+        } else if !zst && rng.chance(1, 400) {
             rng.range(3000, 9000) as u32
         } else if !zst && rng.chance(1, 40_000) {
             // beyond 2^16 / 2^20 stored values
@@ -597,7 +639,9 @@ impl Property for C19 {
             for o in ops.iter_mut() {
                 if let Op::Fetch(c) = o {
                     if rng.chance(2, 3) {
-                        *c = PREFILL_CLASS + rng.below(64.min(prefill as u64)) as u32;
+                        // (by-fetch prefill stores every second class: odd ones sit between two stored values)
+                        let span = if prefill_by_fetch { 2 * 64.min(prefill as u64) } else { 64.min(prefill as u64) };
+                        *c = PREFILL_CLASS + rng.below(span) as u32;
                     }
                 }
             }
@@ -611,7 +655,9 @@ impl Property for C19 {
         if huge_elem == 2 {
             ops.truncate(8);
         }
-        Trace { huge_elem, enum_elem: !zst && kind < 2, big_elem: !zst && kind == 2, ne_mode: if rng.chance(1, 6) { rng.range(1, 2) as u8 } else { 0 }, prefill, zst, relation, unwind_at: if zst || prefill > 0 { None } else { unwind_at }, ops }
+        let ctor = if rng.chance(1, 3) { rng.range(1, 2) as u8 } else { 0 };
+        // (a prefill through fetch_or_append costs n^2 / 2 comparisons: only up to 9000 values)
+        Trace { ctor, prefill_by_fetch: prefill_by_fetch && prefill > 0 && prefill <= 9000, huge_elem, enum_elem: !zst && kind < 2, big_elem: !zst && kind == 2, ne_mode: if rng.chance(1, 6) { rng.range(1, 2) as u8 } else { 0 }, prefill, zst, relation, unwind_at: if zst || prefill > 0 { None } else { unwind_at }, ops }
     }
 
     fn execute(t: &Trace, cov: &mut Cov) -> RunOut {
@@ -670,6 +716,16 @@ impl Property for C19 {
             c.ne_mode = 0;
             out.push(c);
         }
+        if t.ctor != 0 {
+            let mut c = t.clone();
+            c.ctor = 0;
+            out.push(c);
+        }
+        if t.prefill_by_fetch {
+            let mut c = t.clone();
+            c.prefill_by_fetch = false;
+            out.push(c);
+        }
         if t.prefill > 0 {
             for p in [0, t.prefill / 2, t.prefill - 1] {
                 if p != t.prefill {
@@ -713,7 +769,7 @@ impl Property for C19 {
         Meta {
             level: "exploration",
             rule: "each run is a seeded history of 1-40 append/fetch_or_append/lookup operations on one Storage under one equality relation (by-class, NaN-like, non-transitive) with an optional unwinding comparison; the abstract trace is the sequence of (operation, outcome: appended/found/unwound); a run is non-trivial if it appended >= 3 values or its unwind fault fired; distinct = distinct abstract traces among non-trivial runs",
-            lanes: "element types: struct, two-variant enum, zero-sized, 136-byte, 65 600-byte (1/1500 runs), 1 MiB+ (1/18000 runs); irreflexive relation; `ne` inconsistent with `eq`; storages pre-filled with 3e3..9e3 (1/400 runs) and 2^16..1.1e6 (1/40000 runs) values",
+            lanes: "element types: struct, two-variant enum, zero-sized, 136-byte, 65 600-byte (1/1500 runs), 1 MiB+ (1/18000 runs); irreflexive relation; `ne` inconsistent with `eq`; storages built by new(), default() or left behind by mem::take; storages pre-filled (by append or by fetch_or_append) with 60..300 (1/60 runs), 3e3..9e3 (1/400 runs) and 2^16..1.1e6 (1/40000 runs) values",
             triple_measure: "(relation, operation, outcome)",
             item_measure: "n/a",
             assumptions: &[
